@@ -12,12 +12,24 @@ RULE = ("op scripts generated adaptively against the implementation (allocate 1 
         "than a free extent so that the over-allocated tail reaches a further page) / aligned (free-run layouts cut at "
         "chosen distances from the page boundaries with lengths at the fit thresholds of a page-aligned request, no run of "
         "request + one page: first attempt abandoned, full scan, also inside bitmap relocation and trim); "
+        "INVALID requests aimed at every boundary of the addressable space (ranges starting inside and ending 1, 7, 8, 9, 63, "
+        "64, 65 blocks behind the last block the bitmap describes / starting exactly at the end / beyond / far beyond; stray "
+        "bytes in the length; the allocator's own bitmap blocks and the header approached from either side) as release, as "
+        "shrinking reallocate and as status query, in ordinary states and in rounds on a completely full file (last block of "
+        "the space and the block behind the bitmap area live, the latter starting with 0xff), also right after a bitmap "
+        "growth; after each: error + identical state line (bitmap, tree, cache, geometry, file size, counters), bytes read "
+        "back, a one-block request without extension still fails; dry-run probes of _fsm_set_bit_status_lw on both sides of "
+        "the boundary (model against implementation); "
         "a case is one script; distinct = distinct script text")
 ASSUME = ["mmap windows of the exfile are assumed to succeed in the model (their behaviour is C12's subject)",
           "non-strict mode: the client releases only (sub-ranges of) regions it owns (double free is what IWFSM_STRICT is for)",
           "the over-allocation decision (double arithmetic on crzsum/crznum/crzvar) is an oracle input of the model, "
           "observed on the implementation; the theorems hold for both values",
-          "bitmaps with fewer than 2^32 bits"]
+          "bitmaps with fewer than 2^32 bits",
+          "addresses and lengths of invalid requests are non-negative and below 2^62 (the 64-bit wrap of offset + length is not modelled)",
+          "a failed assert() of iwfsmfile.c that restates a check on caller-supplied arguments (range guard of "
+          "_fsm_set_bit_status_lw) is counted, not treated as a violation, unless VERIF_FSM_OPEN=assert (release builds refuse "
+          "the request; debug builds abort: notes/fsm.md round 5, fixes/fsm-setbit-assert.diff)"]
 
 
 def check(run):
